@@ -16,6 +16,7 @@ pub mod c14;
 pub mod c15;
 pub mod c17;
 pub mod c18;
+pub mod c19;
 pub mod c20;
 
 pub type BoxedScenario = Box<dyn Fn(&mut Ctx) + Sync>;
@@ -36,6 +37,7 @@ pub fn run(prop: &str, tier: Tier, seed: u64) -> Option<i32> {
         "C14" => c14::run(tier, seed),
         "C15" => c15::run(tier, seed),
         "C17" => c17::run(tier, seed),
+        "C19" => c19::run(tier, seed),
         "C20" => c20::run(tier, seed),
         _ => return None,
     })
@@ -57,6 +59,7 @@ pub fn scenario(prop: &str, name: &str, tier: Tier) -> Option<BoxedScenario> {
         "C14" => c14::scenario(name, tier),
         "C15" => c15::scenario(name, tier),
         "C17" => c17::scenario(name, tier),
+        "C19" => c19::scenario(name, tier),
         "C20" => c20::scenario(name, tier),
         _ => None,
     }
